@@ -558,8 +558,8 @@ def check_case(ctx, case, count=True):
             ctx.notes[k] = ctx.notes.get(k, 0) + 1
             return True
         sig = f"reduction:{red}:raises"
-        if red == "argtopk" and abs(case["k"]) == a.shape[case["axis"]] and len(chunks[case["axis"]]) > 1:
-            sig = "reduction:argtopk:abs-k-equals-axis-length-raises"
+        if red == "argtopk" and abs(case["k"]) >= a.shape[case["axis"]] and len(chunks[case["axis"]]) > 1:
+            sig = "reduction:argtopk:abs-k-equals-axis-length-raises"  # repaired in /repo 82c8f3e; regression signature
         elif red in ("nanargmin", "nanargmax") and isinstance(exc, ValueError) and "All NaN" in str(exc) and _lane_only_nan_and_inf(case, a):
             # NumPy documents nanarg* as untrustworthy on lanes of only NaN and inf (it answers with the index of a NaN);
             # the tree refuses such a lane when a block holding only its NaNs precedes the block with the inf
@@ -735,12 +735,8 @@ def rand_case(ctx, red, rng):
         case["ddof"] = rng.choice([0, 0, 1])
     if red in ("topk", "argtopk"):
         n = shape[axis]
-        # 1 <= |k| <= n: the part of topk that has a NumPy meaning (sorted extreme k values)
-        kk = min(n, rng.choice([1, 2, 3, n]))
-        if red == "argtopk" and kk == n and len(chunks[axis]) > 1:
-            kk = max(1, n - 1)  # |k| == axis length over several chunks: known class (raises), probed separately
-            if kk == n:
-                chunks[axis] = [n]
+        # |k| up to and beyond the axis length (every element is kept then; the advertised shape must say so)
+        kk = max(1, rng.choice([1, 2, 3, n, n, n + 2]))
         case["k"] = kk * rng.choice([1, -1])
         case["keepdims"] = False
     if red in NO_KEEPDIMS:
